@@ -507,6 +507,57 @@ def sess_table_big():
     return out
 
 
+def _cfg(fn, users, realm='R', enc=1, ukind='dict'):
+    return {'fn': fn, 'enc': 0 if fn == 'digest' else enc, 'ukind': ukind, 'users': users, 'realm': realm}
+
+
+def authseq_table():
+    """several gates on one request object: an outer gate with one table / realm, an inner gate with another"""
+    out = []
+    outer = [['admin', 'pw'], ['bob', 'None']]
+    hdrs = ['Basic ' + b64s('admin:pw'), digest_header('admin', 'R', 'pw', 'GET', qop='auth'),
+            'Basic ' + b64s('admin:px'), digest_header('mallory', 'R', 'None', 'GET')]
+    inner = [dict(users=outer), dict(users=outer, realm='S'), dict(users=[['root', 'pw']]),
+             dict(users=[['admin', 'other']]), dict(users=[]), dict(users=outer, enc=0)]
+    pairs = [('check', 'basic'), ('basic', 'digest'), ('digest', 'check')]
+    for hdr in hdrs:
+        for kw in inner:
+            for j, (f1, f2) in enumerate(pairs):
+                c1, c2 = _cfg(f1, outer), _cfg(f2, **kw)
+                seqs = [[c1, c2]]
+                if j == 0:
+                    seqs += [[c2, c1], [c1, c2, c1]]
+                for checks in seqs:
+                    out.append({'k': 'authseq', 'method': 'GET', 'hdr': hdr, 'checks': checks})
+    return out
+
+
+def gen_authseq_case(rng):
+    base = gen_auth_case(rng)
+    first = {k: base[k] for k in ('fn', 'enc', 'ukind', 'users', 'realm')}
+    checks = [first]
+    for _ in range(rng.randint(1, 2)):
+        ch = dict(rng.choice(checks))
+        m = rng.random()
+        if m < 0.25:
+            ch['realm'] = rng.choice(REALMS + [ch['realm'].upper()])
+        elif m < 0.45:
+            ch['users'] = [[u, p] for u, p in ch['users'] if rng.random() < 0.5]
+        elif m < 0.65:
+            ch['users'] = [[u, rng.choice(PASSWORDS)] for u, p in ch['users']]
+        elif m < 0.75:
+            ch['users'] = [[rng.choice(USERS + ABSENT), rng.choice(PASSWORDS)]]
+        elif m < 0.85:
+            ch['users'] = []
+        ch['fn'] = rng.choice(['basic', 'digest', 'check'])
+        ch['enc'] = 0 if ch['fn'] == 'digest' else rng.choice([first['enc'] if first['fn'] != 'digest' else 1, 1, 0, 2])
+        ch['ukind'] = rng.choice(['dict', 'cdict', 'cfun'])
+        checks.append(ch)
+    if rng.random() < 0.3:
+        rng.shuffle(checks)
+    return {'k': 'authseq', 'method': base['method'], 'hdr': base['hdr'], 'checks': checks}
+
+
 def e2e_table():
     out = []
     users = [['admin', 'pw']]
@@ -629,12 +680,13 @@ class C20(Prop):
     id = 'C20'
     props_file = 'Props/C20.v'
     imports = ['Model.Auth', 'Model.AuthObs', 'Model.Session', 'Model.SessionObs', 'Model.VHost', 'Model.VHostObs']
-    quick_n = 400
+    quick_n = 350
     thorough_n = 5000
     rule = ('auth: user tables (0-3 users, dict / callable) x realm x method x Authorization values from a grammar of both '
             'schemes (right / wrong / "None" / derived secrets, users absent from the table, dropped / extra / duplicated '
             'digest fields, qop and algorithm variants, bad base64, no colon, bad utf-8, no space, unknown scheme) through '
-            'the real tools.basic_auth / digest_auth / check_auth; sessions: histories of 2-6 requests over the real '
+            'the real tools.basic_auth / digest_auth / check_auth, one check per fresh request and sequences of 2-3 checks with '
+            'different (function, realm, users, encrypt) on one and the same request object; sessions: histories of 2-6 requests over the real '
             'Sessions component with replayed, stolen, truncated and forged cookies; vhost: trusted-gateway '
             'configuration x remote address x X-Forwarded-Host x Host.  The three decision tables are enumerated on every '
             'run.  non-trivial = Authorization header present / history presents a cookie / X-Forwarded-Host present')
@@ -654,7 +706,7 @@ class C20(Prop):
 
     # ---- cases
     def generate(self, rng, n, tier):
-        cases = auth_table() + e2e_table() + sess_table() + vhost_table()
+        cases = auth_table() + authseq_table() + e2e_table() + sess_table() + vhost_table()
         if tier == 'thorough':
             cases += auth_table_big() + sess_table_big()
         for i in range(n):
@@ -664,6 +716,8 @@ class C20(Prop):
                 if c['fn'] != 'check' and c['method'] != 'HEAD' and e2e_ok_header(c['hdr']):
                     c['k'] = 'e2e'
                 cases.append(c)
+            elif r < 0.14:
+                cases.append(gen_authseq_case(rng))
             elif r < 0.62:
                 cases.append(gen_auth_case(rng))
             elif r < 0.80:
@@ -678,6 +732,8 @@ class C20(Prop):
         self.stats['kinds'][k] = self.stats['kinds'].get(k, 0) + 1
         if k == 'auth':
             obs = self.impl_auth(c)
+        elif k == 'authseq':
+            obs = self.impl_authseq(c)
         elif k == 'e2e':
             with Md5Trace() as tr:
                 status, secret, seen = e2e_run(c)
@@ -693,31 +749,51 @@ class C20(Prop):
         self._cache[canon(c)] = obs
         return obs
 
+    @staticmethod
+    def _one_check(req, res, ch):
+        """one tools.* call with the configuration `ch` on the given request/response -> (tag, exception name)"""
+        users = make_users(ch['ukind'], ch['users'])
+        fn = ch['fn']
+        try:
+            if fn == 'basic':
+                r = tools.basic_auth(req, res, ch['realm'], users, ENC[ch['enc']])
+                return (0 if r is None else 1), None
+            if fn == 'digest':
+                r = tools.digest_auth(req, res, ch['realm'], users)
+                return (0 if r is None else 1), None
+            r = tools.check_auth(req, res, ch['realm'], users, ENC[ch['enc']])
+            return (0 if r else 1), None
+        except Exception as e:   # the request handler would fail: no protected result
+            return 2, type(e).__name__
+
+    @staticmethod
+    def _login(req):
+        login = req.login
+        return [0] if login is None else [1] if login is False else [2, login] if isinstance(login, str) else [3, repr(login)]
+
     def impl_auth(self, c):
         req, res = mkreq(method=c['method'], headers=[('Host', 'h.example'), ('Authorization', c['hdr'])])
-        users = make_users(c['ukind'], c['users'])
-        fn = c['fn']
         with Md5Trace() as tr:
-            try:
-                if fn == 'basic':
-                    r = tools.basic_auth(req, res, c['realm'], users, ENC[c['enc']])
-                    tag = 0 if r is None else 1
-                elif fn == 'digest':
-                    r = tools.digest_auth(req, res, c['realm'], users)
-                    tag = 0 if r is None else 1
-                else:
-                    r = tools.check_auth(req, res, c['realm'], users, ENC[c['enc']])
-                    tag = 0 if r else 1
-                exc = None
-            except Exception as e:   # the request handler would fail: no protected result
-                tag, exc = 2, type(e).__name__
-        login = req.login
-        login = [0] if login is None else [1] if login is False else [2, login] if isinstance(login, str) else [3, repr(login)]
+            tag, exc = self._one_check(req, res, c)
+        login = self._login(req)
         t = c.get('tag', '')
         self.stats['auth_tags'][t] = self.stats['auth_tags'].get(t, 0) + 1
         self.stats['auth_outcomes'][str(tag)] = self.stats['auth_outcomes'].get(str(tag), 0) + 1
         return {'tag': tag, 'login': login, 'status': int(res.status), 'exc': exc,
                 'challenge': 'WWW-Authenticate' in res.headers, 'md5': sorted(tr.table.items())}
+
+    def impl_authseq(self, c):
+        """several checks, each with its own (function, realm, users, encrypt), on ONE Request/Response pair
+        (an outer gate followed by an inner gate): state kept on the request must not decide a later check"""
+        req, res = mkreq(method=c['method'], headers=[('Host', 'h.example'), ('Authorization', c['hdr'])])
+        steps = []
+        with Md5Trace() as tr:
+            for ch in c['checks']:
+                tag, exc = self._one_check(req, res, ch)
+                steps.append({'tag': tag, 'login': self._login(req), 'exc': exc})
+        t = 'seq:' + ''.join(str(st['tag']) for st in steps)
+        self.stats['auth_tags'][t] = self.stats['auth_tags'].get(t, 0) + 1
+        return {'steps': steps, 'md5': sorted(tr.table.items())}
 
     def impl_sess(self, c):
         S = sessions_mod.Sessions()
@@ -757,22 +833,25 @@ class C20(Prop):
             sessions_mod.uuid = old
         return out
 
-    def _vrun(self, c, host, xfh):
-        tg = c['tg']
-        if tg is not None:
-            tg = {'list': list, 'tuple': tuple, 'set': set}[c['tgtype']](tg)
-        vh = VirtualHosts(dict((d, p) for d, p in c['domains']), tg)
-        req, res = mkreq(ip=c['ip'], path=c['path'], headers=[('Host', host), ('X-Forwarded-Host', xfh)])
+    def _vrun(self, vh, c, host, xfh, ip=None):
+        req, res = mkreq(ip=ip or c['ip'], path=c['path'], headers=[('Host', host), ('X-Forwarded-Host', xfh)])
         vh._on_request(None, req, res)
         return req.path
 
     def impl_vhost(self, c):
+        tg = c['tg']
+        if tg is not None:
+            tg = {'list': list, 'tuple': tuple, 'set': set}[c['tgtype']](tg)
+        # ONE component instance for all requests of the case: a decision must not leak from an earlier request
+        vh = VirtualHosts(dict((d, p) for d, p in c['domains']), tg)
+        if c['tg']:
+            self._vrun(vh, c, c['host'], c['domains'][-1][0] or 'a.example', ip=c['tg'][0])   # a trusted request first
         xfh = c['xfh']
         f = None
         if xfh is not None:
             f = xfh.split(',')[0].strip().lower()
-        obs = {'path': self._vrun(c, c['host'], xfh), 'path_no_xfh': self._vrun(c, c['host'], None)}
-        obs['path_host_f'] = self._vrun(c, f, None) if f and re.fullmatch(r'[a-z.]+(:\d+)?', f) else None
+        obs = {'path': self._vrun(vh, c, c['host'], xfh), 'path_no_xfh': self._vrun(vh, c, c['host'], None)}
+        obs['path_host_f'] = self._vrun(vh, c, f, None) if f and re.fullmatch(r'[a-z.]+(:\d+)?', f) else None
         return obs
 
     # ---- model
@@ -784,30 +863,7 @@ class C20(Prop):
         k = c['k']
         if k in ('auth', 'e2e'):
             hdr = c['hdr']
-            b64t, utf8t, keqvt = [], [], []
-            if hdr is not None and ' ' in hdr:
-                rest = hdr.split(' ', 1)[1]
-                try:
-                    raw = base64.decodebytes(rest.encode('utf-8'))
-                except Exception:
-                    raw = None
-                scheme = hdr.split(' ', 1)[0].lower()
-                if scheme == 'basic':
-                    b64t.append('(%s, %s)' % (cstr(rest), copt(raw, lambda b: nlist(list(b)))))
-                if scheme == 'basic' and raw is not None and b':' in raw:
-                    for part in set(raw.split(b':', 1)):
-                        try:
-                            d = part.decode('utf-8')
-                        except UnicodeDecodeError:
-                            d = None
-                        utf8t.append('(%s, %s)' % (nlist(list(part)), copt(d, cstr)))
-                try:
-                    d = urllib.request.parse_keqv_list(urllib.request.parse_http_list(rest))
-                    kv = list(d.items())
-                except Exception:
-                    kv = None
-                if scheme == 'digest':
-                    keqvt.append('(%s, %s)' % (cstr(rest), copt(kv, cpairs)))
+            b64t, utf8t, keqvt = self._header_tables(hdr)
             md5t = list(obs.get('md5', [])) if isinstance(obs, dict) else []
             if c['enc'] == 2 and hdr is not None:      # the configured encrypt hashes the presented password
                 md5t = md5t + [[p, md5hex(p)] for p in self._basic_passwords(hdr)]
@@ -816,6 +872,19 @@ class C20(Prop):
                 '; '.join(b64t), '; '.join(utf8t), cpairs(md5t), '; '.join(keqvt),
                 1 if c['fn'] == 'digest' else 0, c['enc'], copt(hdr, cstr), cstr(c['method']), cstr(c['realm']),
                 cpairs(c['users']))
+        if k == 'authseq':
+            # every check is the model's pure function of its own configuration; tables are shared
+            hdr = c['hdr']
+            b64t, utf8t, keqvt = self._header_tables(hdr)
+            md5t = list(obs.get('md5', [])) if isinstance(obs, dict) else []
+            if hdr is not None and any(ch['enc'] == 2 for ch in c['checks']):
+                md5t = md5t + [[p, md5hex(p)] for p in self._basic_passwords(hdr)]
+            checks = '; '.join('outcome_of tb tu tm tk %d%%nat %d%%nat th tmeth %s %s' % (
+                1 if ch['fn'] == 'digest' else 0, ch['enc'], cstr(ch['realm']), cpairs(ch['users'])) for ch in c['checks'])
+            return ('(let tb := [%s] in let tu := [%s] in let tm := %s in let tk := [%s] in let th := %s in '
+                    'let tmeth := %s in obs_auth_seq [%s])' % (
+                        '; '.join(b64t), '; '.join(utf8t), cpairs(md5t), '; '.join(keqvt), copt(hdr, cstr),
+                        cstr(c['method']), checks))
         if k == 'sess':
             shat = {}
             for r in c['reqs']:
@@ -837,6 +906,34 @@ class C20(Prop):
             return 'obs_vhost [%s] %s %s %s %s %s %s' % ('; '.join(jt), cpairs(c['domains']), tg, cstr(c['ip']),
                                                         cstr(c['host'] or ''), cstr(c['xfh'] or ''), cstr(c['path']))
 
+    def _header_tables(self, hdr):
+        """oracle tables (base64, utf-8, parameter list) for the questions the model can ask about this header"""
+        b64t, utf8t, keqvt = [], [], []
+        if hdr is not None and ' ' in hdr:
+            rest = hdr.split(' ', 1)[1]
+            try:
+                raw = base64.decodebytes(rest.encode('utf-8'))
+            except Exception:
+                raw = None
+            scheme = hdr.split(' ', 1)[0].lower()
+            if scheme == 'basic':
+                b64t.append('(%s, %s)' % (cstr(rest), copt(raw, lambda b: nlist(list(b)))))
+            if scheme == 'basic' and raw is not None and b':' in raw:
+                for part in sorted(set(raw.split(b':', 1))):
+                    try:
+                        d = part.decode('utf-8')
+                    except UnicodeDecodeError:
+                        d = None
+                    utf8t.append('(%s, %s)' % (nlist(list(part)), copt(d, cstr)))
+            try:
+                d = urllib.request.parse_keqv_list(urllib.request.parse_http_list(rest))
+                kv = list(d.items())
+            except Exception:
+                kv = None
+            if scheme == 'digest':
+                keqvt.append('(%s, %s)' % (cstr(rest), copt(kv, cpairs)))
+        return b64t, utf8t, keqvt
+
     def _basic_passwords(self, hdr):
         try:
             raw = base64.decodebytes(hdr.split(' ', 1)[1].encode('utf-8'))
@@ -855,6 +952,8 @@ class C20(Prop):
         k = c['k']
         if k == 'auth':
             return [obs['tag'], obs['login']]
+        if k == 'authseq':
+            return [[st['tag'], st['login']] for st in obs['steps']]
         if k == 'e2e':
             return bool(obs['secret'])
         if k == 'sess':
@@ -867,27 +966,15 @@ class C20(Prop):
             return None       # reported by the framework as a crash
         k = c['k']
         if k == 'auth':
-            tag, login = obs['tag'], obs['login']
-            if login[0] == 3:
-                return 'request.login is %s' % login[1]
-            if tag == 0:
-                if login[0] != 2:
-                    return ('authenticated (protected result served, status %d) although no credentials verified: '
-                            'request.login=%r' % (obs['status'], {0: None, 1: False}.get(login[0])))
-                if not verifies(c, login[1]):
-                    return ('authenticated as %r but the Authorization value does not verify against an entry of the '
-                            'user table %r for realm %r' % (login[1], c['users'], c['realm']))
-                if obs['status'] >= 400:
-                    return 'authenticated but the response status is %d' % obs['status']
-            else:
-                if login[0] == 2:
-                    return 'refused, but request.login is set to %r' % login[1]
-                if tag == 1 and c['fn'] != 'check' and (obs['status'] != 401 or not obs['challenge']):
-                    return 'refusal without 401 / challenge (status %d)' % obs['status']
-                # completeness for plainly valid credentials of the supported combinations
-                for u, _ in c['users']:
-                    if verifies(c, u) and self._plain(c):
-                        return 'credentials that verify against the entry of %r were refused' % u
+            return self._judge_check(c, c, obs['tag'], obs['login'], obs['status'], obs['challenge'])
+        if k == 'authseq':
+            # every check is judged on its own: by its own table, realm and encrypt, and the request's header/method
+            for i, (ch, st) in enumerate(zip(c['checks'], obs['steps'])):
+                one = dict(ch, hdr=c['hdr'], method=c['method'])
+                what = self._judge_check(one, ch, st['tag'], st['login'], None, None)
+                if what:
+                    return 'check %d of %d on the same request (%s, realm %r): %s' % (
+                        i + 1, len(c['checks']), ch['fn'], ch['realm'], what)
             return None
         if k == 'e2e':
             ok = any(verifies(c, u) for u, _ in c['users'])
@@ -934,6 +1021,35 @@ class C20(Prop):
                     return 'empty X-Forwarded-Host changed routing'
             return None
 
+    def _judge_check(self, c, ch, tag, login, status, challenge):
+        """the property's predicate for ONE check with configuration c (hdr, method, realm, users, fn, enc);
+        status/challenge None = not judged (later checks on a shared response)"""
+        if login[0] == 3:
+            return 'request.login is %s' % login[1]
+        if tag == 0:
+            if login[0] != 2:
+                return ('authenticated (protected result served%s) although no credentials verified: '
+                        'request.login=%r' % ('' if status is None else ', status %d' % status,
+                                              {0: None, 1: False}.get(login[0])))
+            if not verifies(c, login[1]):
+                return ('authenticated as %r but the Authorization value does not verify against an entry of the '
+                        'user table %r for realm %r' % (login[1], c['users'], c['realm']))
+            if status is not None and status >= 400:
+                return 'authenticated but the response status is %d' % status
+        else:
+            if status is not None:       # a single check on a fresh request
+                if login[0] == 2:
+                    return 'refused, but request.login is set to %r' % login[1]
+                if tag == 1 and c['fn'] != 'check' and (status != 401 or not challenge):
+                    return 'refusal without 401 / challenge (status %d)' % status
+            elif tag == 1 and c['hdr'] is not None and login[0] == 2:
+                return 'refused, but request.login is %r' % login[1]
+            # completeness for plainly valid credentials of the supported combinations
+            for u, _ in c['users']:
+                if verifies(c, u) and self._plain(c):
+                    return 'credentials that verify against the entry of %r were refused' % u
+        return None
+
     def _plain(self, c):
         """credentials in the combinations the code supports: Basic with a working encrypt; Digest with
         algorithm MD5 / MD5-sess(+cnonce), qop absent or auth, no duplicated or reserved fields"""
@@ -960,6 +1076,8 @@ class C20(Prop):
         k = c['k']
         if k in ('auth', 'e2e'):
             return c['hdr'] is not None
+        if k == 'authseq':
+            return c['hdr'] is not None and len(c['checks']) > 1
         if k == 'sess':
             return any(r['cookie'] is not None for r in c['reqs'])
         return c['xfh'] is not None
